@@ -283,7 +283,7 @@ Proof.
   change (beq (s2b "udp") (s2b "udp")) with true. cbv iota. rewrite Hres.
   destruct (alookup (udp_key host port) (ps_table p)) as [f|] eqn:EL.
   - destruct (alookup (udp_key host port) (ps_table (clean_expired now p))) as [f'|] eqn:EC.
-    + eexists. split; [reflexivity|]. intros Hn. rewrite (clean_lookup_keep _ _ _ _ EL Hn) in EC. exact EC.
+    + eexists. split; [reflexivity|]. intros Hn. apply clean_lookup_keep; assumption.
     + eexists. split; [reflexivity|]. intros Hn. rewrite (clean_lookup_keep _ _ _ _ EL Hn) in EC. discriminate.
   - rewrite (clean_lookup_none _ _ _ EL). eexists. split; [reflexivity|].
     cbn [ps_table with_table]. apply alookup_aset_same.
@@ -326,7 +326,8 @@ Proof.
   intros Htr Hslot. unfold get_transport. cbv zeta. rewrite Htr.
   change (negb (supported_proto (s2b "tcp"))) with false. cbv iota.
   destruct (alookup (full_addr (s2b "tcp") host port tid) (ps_table (clean_expired now p))) as [f0|] eqn:EC.
-  - intros H. injection H as <- <-. intros f EF. rewrite EC in EF. injection EF as <-.
+  - intros H. injection H as <- <-. intros f EF.
+    assert (E2 : Some f0 = Some f) by (rewrite <- EC; exact EF). injection E2 as <-.
     apply clean_lookup_in in EC. apply (Hslot _ _ EC). apply tcp_key_prefix.
   - change (beq (s2b "tcp") (s2b "udp")) with false. cbv iota.
     destruct (alookup (full_addr (s2b "tcp") host port []) (ps_table (clean_expired now p))) as [f1|].
@@ -342,18 +343,18 @@ Theorem C02_dest_tcp : forall e host port tr m x,
                tcp_shape (write_message (sent_msg m)) outs.
 Proof.
   intros e host port tr m x Hfx Htr Hslot.
-  assert (NIL : exists outs, x_outs x = x_outs x ++ outs /\ tcp_shape (write_message (sent_msg m)) outs).
-  { exists []. split; [symmetry; apply app_nil_r|left; reflexivity]. }
+  assert (NIL : forall b, exists outs, x_outs x = x_outs x ++ outs /\ tcp_shape b outs).
+  { intros b. exists []. split; [symmetry; apply app_nil_r|left; reflexivity]. }
   unfold send_message, sent_msg. destruct (mtry s_client_transaction m) as [m1 tid]. cbn [fst].
   destruct (get_transport _ _ _ _ _ _) as [p1 rkey] eqn:EG.
-  destruct rkey as [key| |]; try exact NIL.
+  destruct rkey as [key| |]; try apply NIL.
   pose proof (get_transport_tcp _ _ _ _ _ _ _ _ Htr Hslot EG) as HT.
   rewrite Hfx. assert (EU : equal_fold tr (s2b "udp") = false) by (unfold equal_fold; rewrite Htr; reflexivity).
   rewrite EU. cbn [andb negb].
   assert (P2 : match alookup key (ps_table p1) with Some {| fo_pri := None |} => p1 | _ => p1 end = p1).
   { destruct (alookup key (ps_table p1)) as [[[pr|] sec]|]; reflexivity. }
   cbv zeta. rewrite P2.
-  destruct (alookup key (ps_table p1)) as [f|] eqn:EF; [|exact NIL].
+  destruct (alookup key (ps_table p1)) as [f|] eqn:EF; [|apply NIL].
   match goal with |- context [failover_send ?a ?b ?c ?d ?e ?f ?g ?h] =>
     destruct (failover_send a b c d e f g h) as [[[[[p4 cs] w] outs] ok] f'] eqn:EFS end.
   cbn [fst x_outs]. exists outs. split; [reflexivity|].
